@@ -202,6 +202,8 @@ struct Interp {
     std::string n = isvar ? upper(e["o"]["n"].get<std::string>()) : std::string(); RVal tmp; if (!isvar) tmp = eval(env, e["o"]);
     auto target = [&]() -> RVal& { return isvar ? lookup(env, n) : tmp; };
     { RVal& o = target();
+      // concat on an untyped null: the receiver becomes the string (or the one-character string) it is given
+      if (o.t == RVal::Null && o.elem == "undefined" && m == "concat") { RVal a = eval(env, e["args"][0]); RVal& oo = target(); if (a.t == RVal::Str) { oo = RVal::S(a.s); return oo; } if (a.t == RVal::Int && a.i >= 1 && a.i <= 255) { oo = RVal::S(std::string(1, (char)a.i)); return oo; } throw Unsupported{"concat on null with that argument"}; }
       if (o.t == RVal::Str && m == "concat") { RVal a = eval(env, e["args"][0]); RVal& oo = target(); if (a.t == RVal::Str) oo.s += a.s; else if (a.t == RVal::Int) { if (a.i < 0 || a.i > 255) throw RErr{21, ""}; oo.s.push_back((char)a.i); } else throw Unsupported{"string concat argument"}; return oo; }
       if (o.t == RVal::Str && (m == "insert" || m == "put" || m == "delete")) {
         RVal p = eval(env, e["args"][0]); need(p, RVal::Int, "string position"); RVal& oo = target();
